@@ -165,7 +165,7 @@ func Gen(t *rapid.T, s *ast.Schema, o Options) Op {
 
 // repaired lists generator classes whose finding was repaired in /repo by a fix: commit: they
 // are generated at full rate again (their saved probe cases guard the repair).
-var repaired = map[string]bool{"int-min": true, "null-default-list": true}
+var repaired = map[string]bool{"int-min": true, "null-default-list": true, "typename-alias": true}
 
 func (g *gen) allow(class string) bool {
 	if g.o.Allow[class] || repaired[class] {
